@@ -20,7 +20,7 @@
    I -> R (SIR; without test_recovery every infectious node does: infectious for exactly one
    step), I -> S for every infectious node (SIS).  [dstopped]: after the last row no infected
    node is left or its time is not before tmax. *)
-From EoNV Require Import Prelude Samp Graph Discrete DiscreteP SampP DiscreteChk DiscreteRun DiscreteRunS DiscreteTop DiscreteC04 DiscreteSafe.
+From EoNV Require Import Prelude Samp Graph Discrete DiscreteP SampP DiscreteChk DiscreteRun DiscreteRunS DiscreteTop DiscreteC04 DiscreteSafe DiscreteC05 DiscreteHist DiscreteC09 DiscretePerc.
 From EoNV Require Gillespie GillespieP.
 From Coq Require Import Permutation.
 
@@ -68,6 +68,17 @@ Theorem C04_basic_discrete_SIS_checker_accepts_every_run : forall g R ord i0 tmi
   exec (basic_discrete_SIS_R g R ord (Some i0) None tmin tmax full fuel) ds [] = (Ok out, tr) ->
   dwf_rowsb false true g tmin tmax (so_rows (o_sim out)) = true.
 Proof. exact dsis_rows_accepted. Qed.
+
+(* percolation_based_discrete_SIR (percolate the network with the rule, then discrete_SIR with
+   H.has_edge): every reachable result is a result of discrete_SIR on a percolated graph H with the
+   nodes of G and edges of G (Proofs/DiscretePerc.v [psir_is_dsir_on_percolated]); so its rows pass
+   the same checker, and row 0 is the request *)
+Theorem C04_percolation_based_discrete_SIR_checker_accepts_every_run : forall g R ord i0 r0o tmin tmax full fuel ds out tr,
+  wf_inputb g i0 (opt_list r0o) = true -> perm_oracle ord -> (full = true -> pick_sound R) ->
+  exec (percolation_based_discrete_SIR_R g R ord (Some i0) r0o None tmin tmax full fuel) ds [] = (Ok out, tr) ->
+  dwf_rowsb true true g tmin tmax (so_rows (o_sim out)) = true /\
+  exists rest, so_rows (o_sim out) = (tmin, row0_of true g i0 (opt_list r0o)) :: rest.
+Proof. exact psir_rows_accepted. Qed.
 
 (* ... and acceptance means the discrete-time clause of the property: the first row is at
    tmin; every row has the right number of columns, non-negative counts summing to N;
@@ -202,6 +213,7 @@ Print Assumptions C04_basic_discrete_SIS_rows_are_a_run.
 Print Assumptions C04_discrete_rows_are_censuses.
 Print Assumptions C04_discrete_SIR_checker_accepts_every_run.
 Print Assumptions C04_basic_discrete_SIS_checker_accepts_every_run.
+Print Assumptions C04_percolation_based_discrete_SIR_checker_accepts_every_run.
 Print Assumptions C04_discrete_checker_sound.
 Print Assumptions C04_discrete_counts_nonnegative_and_sum_to_N.
 Print Assumptions C04_discrete_kth_row_is_at_tmin_plus_k.
